@@ -1,4 +1,77 @@
-/- driver operations of C09 (stub: no model yet) -/
+import EvoModel.Model.Lie
 namespace Evo.Drv.C09
-def handle (_op : String) (_args : List String) : Option String := none
+open Evo Evo.Lie
+
+def mat4OfList : List Rat → Option (Mat4 Rat)
+  | [a, b, c, tx, d, e, f, ty, g, h, i, tz, b0, b1, b2, b3] =>
+      some ⟨⟨⟨a, b, c, d, e, f, g, h, i⟩, ⟨tx, ty, tz⟩⟩, b0, b1, b2, b3⟩
+  | _ => none
+
+def showB (b : Bool) : String := if b then "1" else "0"
+
+/-- ops (matrices row-major; 3×3 = 9, pose = 12 (3×4), 4×4 = 16 rationals):
+  `hat v`            → 9          `vee m`          → 3
+  `se3inv pose`      → 12         `rel p1 p2`      → 12        `relso3 r1 r2` → 9
+  `sim3 r t s`       → 12         `sim3inv pose s` → 12        `det m`        → 1
+  `isso3 m`          → `b margin` `isse3 m4`       → `b margin bottom`
+  `issim3 m4 s`      → `b margin bottom`
+  `angle m`          → `c s²`     `rodrigues v a b` → 9 -/
+def handle (op : String) (args : List String) : Option String := do
+  let rs ← parseRats? args
+  match op with
+  | "hat" => do
+      let v ← V3.ofList rs
+      some (showRats (M3.hat v).toList)
+  | "vee" => do
+      let m ← M3.ofList rs
+      some (showRats (M3.vee m).toList)
+  | "se3inv" => do
+      let p ← Pose.ofList rs
+      some (showRats p.inv.toList)
+  | "rel" => do
+      let p ← Pose.ofList (rs.take 12)
+      let q ← Pose.ofList (rs.drop 12)
+      some (showRats (p.rel q).toList)
+  | "relso3" => do
+      let p ← M3.ofList (rs.take 9)
+      let q ← M3.ofList (rs.drop 9)
+      some (showRats (relSo3 p q).toList)
+  | "sim3" => do
+      let r ← M3.ofList (rs.take 9)
+      let t ← V3.ofList ((rs.drop 9).take 3)
+      match rs.drop 12 with
+      | [s] => some (showRats (Pose.sim3 r t s).toList)
+      | _ => none
+  | "sim3inv" => do
+      let p ← Pose.ofList (rs.take 12)
+      match rs.drop 12 with
+      | [s] => if s = 0 then some "E_GEOMETRY" else some (showRats (p.sim3Inv s).toList)
+      | _ => none
+  | "det" => do
+      let m ← M3.ofList rs
+      some (showRat m.det)
+  | "isso3" => do
+      let m ← M3.ofList rs
+      some s!"{showB (isSo3Tol m)} {showRat (so3Margin m)}"
+  | "isse3" => do
+      let m ← mat4OfList rs
+      some s!"{showB (isSe3Tol m)} {showRat (so3Margin m.top.rot)} {showB (bottomOk m)}"
+  | "issim3" => do
+      let m ← mat4OfList (rs.take 16)
+      match rs.drop 16 with
+      | [s] =>
+          if s = 0 then some "E_GEOMETRY" else
+          some s!"{showB (isSim3Tol m s)} {showRat (so3Margin (M3.smul (1 / s) m.top.rot))} {showB (bottomOk m)}"
+      | _ => none
+  | "angle" => do
+      let m ← M3.ofList rs
+      let (c, s2) := m.angleCore
+      some s!"{showRat c} {showRat s2}"
+  | "rodrigues" => do
+      let v ← V3.ofList (rs.take 3)
+      match rs.drop 3 with
+      | [a, b] => some (showRats (rodrigues v a b).toList)
+      | _ => none
+  | _ => none
+
 end Evo.Drv.C09
